@@ -1,2 +1,9 @@
 #!/bin/sh
-exit 0
+# Builds the framework offline from files on disk. Facts and target dirs live under /verif/.work (git-ignored).
+set -e
+cd "$(dirname "$0")"
+export CARGO_NET_OFFLINE=true
+mkdir -p .work/facts .work/replay evidence
+(cd engine/mirfacts && cargo build --release --offline)
+if [ -d engine/synscan ]; then (cd engine/synscan && cargo build --release --offline); fi
+echo "setup ok"
